@@ -266,9 +266,22 @@ def shard_merge_single(st, wd):
         cli.write(fname, text)
         for extra in ([], ["--document-format=json"]):
             results = {}
-            for delivery in ("file", "dash", "implied"):
+            empty = os.path.join(wd, "nodocs.yaml")
+            cli.write(empty, "# no document in here\n")
+            nodes = text not in ("", "# only a comment\n", "---\n",
+                                 "--- ~\n")
+            for delivery in ("file", "dash", "implied") + ((
+                    "after-empty", "before-empty") if nodes else ()):
                 if delivery == "file":
                     res = cli.run("yaml-merge", extra + ["--nostdin", fname])
+                elif delivery == "after-empty":
+                    # a file without any document contributes nothing,
+                    # wherever it stands among the sources
+                    res = cli.run("yaml-merge", extra + ["--nostdin", empty,
+                                                         fname])
+                elif delivery == "before-empty":
+                    res = cli.run("yaml-merge", extra + ["--nostdin", fname,
+                                                         empty])
                 elif delivery == "dash":
                     res = cli.run("yaml-merge", extra + ["-"], stdin=text)
                 else:
@@ -283,8 +296,7 @@ def shard_merge_single(st, wd):
                 results[delivery] = (res.code, res.out)
             if len(set(map(repr, results.values()))) != 1 or \
                     results["file"] == "traceback" or \
-                    (results["file"][0] != 0 and text[:1] not in ("", "#")
-                     and not text.startswith("---\n") and text != "--- ~\n"):
+                    (results["file"][0] != 0 and nodes):
                 st.fail("yaml-merge|single-document|delivery", {
                     "tool": "yaml-merge", "lhs": text, "argv": extra,
                     "single": True}, "one outcome, exit 0",
